@@ -292,6 +292,16 @@ Definition spec_C14_stacks (c : ecase) (h : list (option string * wview)) : bool
   | (_, final) =>
       forallb (fun mv => single_checker_ok (md_decos (fst mv)) (snd mv))
               (combine (func_decls (e_ops c) (map fst h)) (wv_funcs final))
+      (* the metadata of every function and member is that of the original *)
+      && forallb fv_meta (wv_funcs final)
+      && forallb (fun cv => forallb (fun m => forallb fv_meta
+                                                (match m with
+                                                 | VFunc _ v => [v]
+                                                 | VProp g s d => (match g with Some v => [v] | None => [] end)
+                                                                  ++ (match s with Some v => [v] | None => [] end)
+                                                                  ++ (match d with Some v => [v] | None => [] end)
+                                                 | _ => []
+                                                 end)) (cv_members cv)) (wv_classes final)
   end.
 
 (** ** C19 / C08 (definition time): misuse is rejected when the definition is executed, with the
